@@ -2014,4 +2014,70 @@ Section Job.
       exists f. split; [|apply Hs'; now left].
       destruct Js as (Jn & _). eapply NAMES_find; eauto.
   Qed.
+
+  (* ifchange.rs: the dependencies of the enclosing target are recorded before anything is built *)
+  Lemma front_fold ex mf me : ~ In mf ex ->
+    forall ts w, JINV w (mf :: ex) -> nm w mf = me ->
+      (forall t, In t ts -> reserved t = false /\ (rk t < rk me)%nat) ->
+      let wa := set_db w (fold_left (fun d t => let '(d', s) := from_name d t in add_dep d' mf DModified s) ts (dbs w)) in
+      jstep (mf :: ex) ex w wa /\ extends w wa /\
+      forall P : fid -> Prop, GOODF w (mf :: ex) mf P ->
+        GOODF wa (mf :: ex) mf (fun x => P x \/ exists t, In t ts /\ find_row (rows (dbs wa)) t 1 = Some x).
+  Proof.
+    intros Hf. induction ts as [|t ts IH]; intros w Hj Hnm Hts; cbv zeta; cbn [fold_left].
+    - rewrite set_db_same. split; [apply jstep_refl; exact Hj|]. split; [apply extends_refl|].
+      intros P Hg. eapply GOODF_weaken; [|exact Hg]. intros x Hx. right. now left.
+    - destruct (Hts t (or_introl eq_refl)) as [Tr Tk].
+      destruct (from_name (dbs w) t) as [d1 s] eqn:Efn.
+      assert (Hrk1 : DModified = DModified -> (rk t < rkf rk w mf)%nat) by (intros _; unfold rkf; rewrite Hnm; exact Tk).
+      assert (Hwt1 : DModified = DCreated -> watched t = true) by (intro X; discriminate X).
+      destruct (add_edge_step ex mf w t DModified d1 s Hj Hf Tr Hrk1 Hwt1 Efn) as (J & E & V & N & F & G).
+      set (w1 := set_db w (add_dep d1 mf DModified s)) in *.
+      pose proof J as (_ & _ & J1 & _).
+      assert (Vmf : valid w mf) by (destruct Hj as (_ & _ & _ & Hu); exact (proj1 (Hu mf (or_introl eq_refl)))).
+      assert (Hnm1 : nm w1 mf = me) by (rewrite (extends_nm w w1 mf E Vmf); exact Hnm).
+      specialize (IH w1 J1 Hnm1 (fun t' Ht' => Hts t' (or_intror Ht'))). cbv zeta in IH.
+      change (dbs w1) with (add_dep d1 mf DModified s) in IH.
+      change (set_db w1 ?X) with (set_db w X) in IH.
+      set (wa := set_db w (fold_left _ ts (add_dep d1 mf DModified s))) in *.
+      destruct IH as (Ja & Ea & Ga).
+      split; [eapply jstep_trans; eauto|]. split; [eapply extends_trans; eauto|].
+      intros P Hg.
+      assert (Hg1 : GOODF w1 (mf :: ex) mf (fun x => P x \/ x = s)).
+      { apply (G P (fun x => P x \/ x = s)); [intros x Hx; now left|exact Hg|].
+        split; [intro X; discriminate X|]. intros _. right. now right. }
+      specialize (Ga _ Hg1). eapply GOODF_weaken; [|exact Ga].
+      intros x [[Hx| ->]|(t' & Ht' & Hfx)].
+      + right. now left.
+      + right. right. exists t. split; [now left|]. destruct Ea as (_ & _ & Nn & _). eapply NAMES_find; eauto.
+      + right. right. exists t'. split; [now right|exact Hfx].
+  Qed.
+
+  (* the command `redo-ifchange ts`, at any nesting depth *)
+  Theorem build_rec_spec : forall fuel, rec_spec (build fuel).
+  Proof.
+    induction fuel as [|fuel IH]; intros e exl ts w w' evs rc (HR & Hj & Hp & Hts & Hmode) H; [discriminate|].
+    cbn [build] in H.
+    destruct Hmode as [Hnone|(me & mf & ex & (E1 & E2 & E3 & E4 & E5 & E6 & E7))].
+    - unfold frontend_deps in H. rewrite Hnone in H.
+      destruct (run_loop_spec (build fuel) fuel e exl IH HR ts [] w [] false w' evs rc Hj Hp Hts H) as (Js & Hres).
+      exists w. split; [unfold front_post; rewrite Hnone; reflexivity|]. split; [exact Js|].
+      intro Hrc. destruct (Hres Hrc (fun g Hg => match Hg with end)) as [_ Hall]. exact Hall.
+    - subst exl. unfold frontend_deps in H. rewrite E1, E2, E3 in H. cbn [orb] in H.
+      assert (Hself : existsb (bytes_eqb me) ts = false).
+      { destruct (existsb (bytes_eqb me) ts) eqn:X; [|reflexivity]. exfalso.
+        apply existsb_exists in X as (t & Ht & Et). apply bytes_eqb_eq in Et. subst t. specialize (E7 me Ht). lia. }
+      rewrite Hself in H. unfold from_name at 1 in H. rewrite E6 in H.
+      destruct (find_row_valid _ _ _ E6) as [_ Nmf].
+      destruct (front_fold ex mf me E5 ts w Hj Nmf) as (Jf & Ef & Gf).
+      { intros t Ht. split; [exact (proj1 (proj2 (Hts t Ht)))|exact (E7 t Ht)]. }
+      set (wa := set_db w (fold_left _ ts (dbs w))) in *.
+      pose proof Jf as (_ & Wa & Ja & _).
+      assert (Htsa : forall t, In t ts -> tgt_ok wa (mf :: ex) t).
+      { intros t Ht. apply (tgt_ok_jstep (mf :: ex) ex w wa t Hj Jf). apply Hts. exact Ht. }
+      destruct (run_loop_spec (build fuel) fuel e (mf :: ex) IH HR ts [] wa [] false w' evs rc Ja (PROJ_wsame w wa Wa Hp) Htsa H) as (Js & Hres).
+      exists wa. split.
+      { unfold front_post. rewrite E1. intros mf' ex' Eq. injection Eq as <- <-. split; [exact Jf|]. split; [exact Ef|exact Gf]. }
+      split; [exact Js|]. intro Hrc. destruct (Hres Hrc (fun g Hg => match Hg with end)) as [_ Hall]. exact Hall.
+  Qed.
 End Job.
